@@ -7,6 +7,9 @@ V = Path(__file__).resolve().parent.parent
 
 # finding id -> (property, commit, what failed)
 FIXED = {
+    ("C01", "helper-local-writes-global"): ("ad7ffdb", "a helper's assignment to a name that is also a file-scope variable wrote the global although the helper did not declare it `global`"),
+    ("C01", "loop-born-variable-reset"): ("45dd9dc", "a name first assigned inside a branch at the top level of the main loop was a default-initialised local of loop(): it lost its value at every pass"),
+    ("C01", "hoisted-variable-reset-in-nested-loop"): ("326804e", "a name hoisted out of a branch inside a loop was reset to its default at the top of every iteration"),
     ("C06", "prologue-tuple-new-name-local-to-setup"): ("d73a7fb", "a new name bound by a file-scope tuple assignment next to existing names was local to setup(); the main loop using it did not compile"),
     ("C07", "keyword-against-parenthesis-header-dropped"): ("befa577", "`if(x):` / `elif(x):` / `while(x):` headers were dropped silently and `while(True):` / `while (True):` were not the main loop"),
     ("C02", "hoisted-local-type-shared-between-helpers"): ("e87d46b", "helpers shared the record of hoisted declaration types: a float local hoisted in one helper was declared int because another helper had hoisted an int of the same name"),
